@@ -87,7 +87,7 @@ A(E("q", "mvex_mehd1_trex", "MvexBox", "any_mvex(Some(1))", "ref_mvex", 8 + 20 +
 A(E("q", "traf_tfhd", "TrafBox", "any_traf::<0>(None, false)", "ref_traf", 8 + 20, 5))
 A(E("q", "traf_tfhd_tfdt1_trun1", "TrafBox", "any_traf::<1>(Some(1), true)", "ref_traf", 8 + 20 + 20 + 28, 12))
 A(E("q", "moof_t0", "MoofBox", "any_moof::<0>()", "ref_moof", 8 + 16, 5))
-A(E("q", "moof_t2", "MoofBox", "any_moof::<2>()", "ref_moof", 8 + 16 + 2 * 28, 7))
+A(E("t", "moof_t2", "MoofBox", "any_moof::<2>()", "ref_moof", 8 + 16 + 2 * 28, 7))
 A(E("q", "moov_mvhd", "MoovBox", "any_moov_trackless(false)", "ref_moov", 8 + 108, 27))
 A(E("q", "moov_mvhd_mvex", "MoovBox", "any_moov_trackless(true)", "ref_moov", 8 + 108 + 40, 27))
 A(E("q", "udta_empty", "UdtaBox", "any_udta_empty()", "ref_udta", 8, 4))
